@@ -117,7 +117,7 @@ fn run_case(kit: &Kit, rt: &tokio::runtime::Runtime, case: &Value, n: usize, tra
         "walk": walk.iter().map(|(h, i)| json!([Kit::short(h), i])).collect::<Vec<_>>(),
         "accepted": accepted, "panicked": panicked, "err": err,
         "predicted": case.get("impl").cloned().unwrap_or(json!("none")),
-        "dev_following": dev_following, "dev_cache_forged": false, "dev_cache_tainted": false, "cache_before_boundary": false,
+        "dev_following": dev_following, "dev_cache_forged": false, "dev_cache_tainted": false, "dev_cache_jump": false, "cache_before_boundary": false,
     }));
 }
 
